@@ -73,3 +73,14 @@ Fixpoint chk (l : list ev) (d : bool) : verdict :=
   end.
 
 Definition is_good (v : verdict) : bool := match v with Good _ => true | Bad _ => false end.
+
+(* line numbers erased: the shape of an extracted list, stable under unrelated edits of the file *)
+Fixpoint erase (e : ev) : ev :=
+  match e with
+  | EFail _ => EFail 0
+  | EMut w _ => EMut w 0
+  | EFMut w _ => EFMut w 0
+  | EAlt bs => EAlt (map (fun b => map erase b) bs)
+  | ELoop b => ELoop (map erase b)
+  end.
+Definition shape (l : list ev) : list ev := map erase l.
